@@ -497,12 +497,23 @@ func c14(run *ev.Run, tier string) {
 		if err != nil {
 			return "", rpmEVR{}, err
 		}
-		if pk, err := nfpm.Get(f); err == nil {
-			_ = pk.ConventionalFileName(info)
+		nameBefore := ""
+		pk, pkErr := nfpm.Get(f)
+		if pkErr == nil {
+			nameBefore = pk.ConventionalFileName(info)
 		}
+		compsBefore := [5]string{info.Epoch, info.Version, info.Prerelease, info.VersionMetadata, info.Release}
 		res := packageInfo(f, info)
 		if res.Err != nil || res.Panic != "" {
 			return "", rpmEVR{}, fmt.Errorf("%v%s", res.Err, res.Panic)
+		}
+		// packaging leaves the version components of the settings as they were: the
+		// file name asked for afterwards is the one asked for before
+		if pkErr == nil {
+			compsAfter := [5]string{info.Epoch, info.Version, info.Prerelease, info.VersionMetadata, info.Release}
+			if nameAfter := pk.ConventionalFileName(info); nameAfter != nameBefore || compsAfter != compsBefore {
+				run.Violate("C14/"+f+"/version-components-changed-by-packaging", map[string]any{"file_name_before": nameBefore, "file_name_after": nameAfter, "components_before": compsBefore, "components_after": compsAfter})
+			}
 		}
 		p := dec.Decode(f, res.Bytes, false)
 		if len(p.Errs) > 0 {
@@ -715,6 +726,45 @@ func c14(run *ev.Run, tier string) {
 		got, _ := p.MetaGet("Version")
 		if n != 1 || got != "1.2.3~rc1" {
 			run.Violate("C14/ipk/version-component-lost-or-duplicated/custom-field-named-version", map[string]any{"custom_field": key, "version_lines": n, "first_version": got, "want": "1.2.3~rc1"})
+		}
+	}
+	// the command line tool: a component that refers to a variable the environment
+	// does not have is an unset component, so it is taken from the version string
+	if bin := nfpmBin(run); bin != "" {
+		y := "name: unsetpre\narch: amd64\nversion: v1.2.3-rc1+git5\nprerelease: ${VERIF_C14_NOT_SET_PRE}\nrelease: ${VERIF_C14_RELEASE}\nmaintainer: \"V <v@example.com>\"\ndescription: d\nmtime: 2017-07-14T02:40:00Z\nrpm:\n  buildhost: verif-host\ncontents:\n  - src: " + payload + "\n    dst: /opt/unsetpre/p.txt\n"
+		cfgp := filepath.Join(dir, "unset-components.yaml")
+		_ = os.WriteFile(cfgp, []byte(y), 0o644)
+		env := []string{"PATH=" + os.Getenv("PATH"), "HOME=" + dir, "VERIF_C14_RELEASE=4"}
+		for _, f := range []string{"deb", "ipk", "rpm", "apk", "archlinux"} {
+			run.Case("cli-version-component-refers-to-unset-variable|"+f, true)
+			outDir := filepath.Join(dir, "unset-"+f)
+			_ = os.MkdirAll(outDir, 0o755)
+			so, se, code, err := runCmd(nil, dir, env, bin, "package", "-f", cfgp, "-p", f, "-t", outDir)
+			es, _ := os.ReadDir(outDir)
+			if err != nil || code != 0 || len(es) != 1 {
+				run.Violate("C14/cli/"+f+"/build-failed/component-refers-to-unset-variable", map[string]any{"exit": code, "files": len(es), "output": ev.Short(string(so)+string(se), 300)})
+				continue
+			}
+			raw, _ := os.ReadFile(filepath.Join(outDir, es[0].Name()))
+			p := dec.Decode(f, raw, false)
+			if len(p.Errs) > 0 {
+				run.Violate("C14/cli/"+f+"/undecodable", map[string]any{"errors": p.Errs})
+				continue
+			}
+			var shipped string
+			switch f {
+			case "rpm":
+				v, _ := p.Rpm.Hdr.Str(dec.RpmTagVersion)
+				r, _ := p.Rpm.Hdr.Str(dec.RpmTagRelease)
+				shipped = v + "-" + r
+			case "apk", "archlinux":
+				shipped, _ = p.MetaGet("pkgver")
+			default:
+				shipped, _ = p.MetaGet("Version")
+			}
+			if strings.Contains(shipped, "VERIF_C14") || strings.Contains(es[0].Name(), "VERIF_C14") || strings.Contains(shipped, "$") || !strings.Contains(es[0].Name(), "rc1") || (f != "archlinux" && !strings.Contains(shipped, "rc1")) || !strings.HasPrefix(shipped, "1.2.3") {
+				run.Violate("C14/cli/"+f+"/component-referring-to-unset-variable-not-taken-from-the-version", map[string]any{"shipped_version": shipped, "file_name": es[0].Name(), "configured": "version v1.2.3-rc1+git5, prerelease ${unset}, release ${set to 4}"})
+			}
 		}
 	}
 	run.Set("version_pairs_ordered", ordered)
